@@ -21,8 +21,10 @@ import (
 	"fmt"
 	"os"
 	"reflect"
+	"runtime"
 	"sort"
 	"strings"
+	"sync"
 	"unsafe"
 
 	"github.com/bufbuild/protocompile/experimental/report"
@@ -389,6 +391,7 @@ type mismatch struct {
 }
 
 type sink struct {
+	mu       sync.Mutex
 	enc      *json.Encoder
 	perClass map[string]int
 	keepCase int
@@ -400,12 +403,38 @@ func newSink(w *bufio.Writer) *sink {
 
 // report one disagreement; the full case is attached only to the first few of each class
 func (s *sink) report(class, detail string, raw []byte) {
+	s.mu.Lock()
+	defer s.mu.Unlock()
 	s.perClass[class]++
 	m := mismatch{Class: class, Detail: detail}
 	if s.perClass[class] <= s.keepCase {
 		m.Case = json.RawMessage(append([]byte(nil), raw...))
 	}
 	_ = s.enc.Encode(m)
+}
+
+// pump feeds every input line to fn on a pool of goroutines (cases are independent).
+func pump(in *bufio.Scanner, fn func(raw []byte)) {
+	workers := runtime.GOMAXPROCS(0)
+	if workers > 8 {
+		workers = 8
+	}
+	ch := make(chan []byte, 256)
+	var wg sync.WaitGroup
+	for w := 0; w < workers; w++ {
+		wg.Add(1)
+		go func() {
+			defer wg.Done()
+			for raw := range ch {
+				fn(raw)
+			}
+		}()
+	}
+	for in.Scan() {
+		ch <- append([]byte(nil), in.Bytes()...)
+	}
+	close(ch)
+	wg.Wait()
 }
 
 func harnessFail(msg string) {
